@@ -39,7 +39,6 @@ class Lexer(object):
     t_FALSE = "False"
     t_LBRACK = r"\["
     t_LPAREN = r"\("
-    t_PLAIN_STRING = r"[^\#\:\,\=\(\)\[\]\"\'\r\n]+"
     t_RBRACK = r"\]"
     t_RPAREN = r"\)"
     t_TRUE = "True"
@@ -68,6 +67,13 @@ class Lexer(object):
     def t_newline(self, t):
         # "\r\n" is a single line break
         t.lexer.lineno += len(t.value) - t.value.count("\r\n")
+
+    # Defined after the other token functions so that they keep their priority over it
+    @TOKEN(r"[^\#\:\,\=\(\)\[\]\"\'\r\n]+")
+    def t_PLAIN_STRING(self, t):
+        # Spaces and tabs before the next delimiter or comment are layout, not part of the string
+        t.value = t.value.rstrip(" \t")
+        return t
 
     def t_error(self, t):
         raise SyntaxError("Illegal character {0} at position {1}".format(t.value[0], t.lexpos))
